@@ -46,6 +46,13 @@ declare -A PROPS=(
  [r4-c16-seqlock-load-retry-waits]="C16 C14"
  [r4-c17-geb-adopt-skip-epoch-idx]="C17 C01"
  [r4-c18-hp-dynamic-reinit-links]="C18 C17"
+ [r5-c02-lfrc-local-pop-store-refcount]="C02 C01"
+ [r5-c05-scq-threshold-blind-store]="C05"
+ [r5-c07-kirsch-bounded-early-release]="C07 C06"
+ [r5-c09-set-iter-inc-single-attempt]="C09"
+ [r5-c12-grow-clears-old-slot]="C12"
+ [r5-c14-seqlock-update-not-atomic]="C14"
+ [r5-c17-hp-abandon-active-count]="C17 C18"
 )
 if ! git -C /repo diff --quiet -- xenium; then echo "/repo has uncommitted changes under xenium/: refusing"; exit 2; fi
 for d in seeded/*/; do
